@@ -37,7 +37,7 @@ func flowOf(s *sim.Sim, rec *world.Rec) string {
 func rememberJustifies(s *sim.Sim, st *sim.Step, U string) bool {
 	rec := st.Rec
 	if s.RememberActive() && rec.SessIn["uid"] == "" {
-		if c := s.Cookies[rec.CookiesIn["rm"]]; c != nil && c.State == sim.Live && c.PID == U {
+		if c := s.Cookies[rec.CookiesIn["rm"]]; c != nil && (c.State == sim.Live || c.State == sim.Limbo) && c.PID == U {
 			return true
 		}
 	}
